@@ -858,6 +858,89 @@ fn fam_listneg(_func: Option<&str>, only: Option<u64>) {
     rep.print();
 }
 
+// C05, bounded stand-in for the ASSUMED object decider (dnf_mapping_is_empty / check_mapping_empty):
+// `A <: B | C` for small object types, against brute force over all objects with keys a, b, c whose
+// values are absent, a string or a number. Reading (mapping.rs, property C05): every EXACT value of A
+// (declared properties only; an index signature admits any further key) is a value of B or C read
+// STRUCTURALLY (undeclared properties are unconstrained unless an index signature constrains them).
+fn fam_mapneg(_func: Option<&str>, only: Option<u64>) {
+    let mut rep = Rep::new("mapneg", "dnf_mapping_is_empty", only);
+    #[derive(Clone, Copy, Debug, PartialEq)]
+    enum F { Absent, Req(SubTypeTag), Opt(SubTypeTag) }
+    #[derive(Clone, Debug)]
+    struct O { a: F, b: F, idx: Option<SubTypeTag>, fin: bool }   // fin: the index signature ranges over the finite key set {"a", "c"} instead of string
+    let tags = [SubTypeTag::String, SubTypeTag::Number];
+    let mut fields = vec![F::Absent];
+    for t in tags { fields.push(F::Req(t)); fields.push(F::Opt(t)); }
+    let mut objs: Vec<O> = vec![];
+    for a in &fields { for b in &fields { for idx in [None, Some(SubTypeTag::String), Some(SubTypeTag::Number)] { objs.push(O { a: *a, b: *b, idx, fin: false }); if idx.is_some() && *a == F::Absent { objs.push(O { a: *a, b: *b, idx, fin: true }); } } } }
+    // values: each of a, b, c is absent (None) or has a string / number value
+    let vopts: [Option<SubTypeTag>; 3] = [None, Some(SubTypeTag::String), Some(SubTypeTag::Number)];
+    let mut values: Vec<[Option<SubTypeTag>; 3]> = vec![];
+    for x in vopts { for y in vopts { for z in vopts { values.push([x, y, z]); } } }
+    // covered: whether key number k (0 = a, 1 = b, 2 = c) is in the index signature's key set
+    let field_ok = |f: F, v: Option<SubTypeTag>, idx: Option<SubTypeTag>, fin: bool, k: usize, exact: bool| -> bool {
+        match f {
+            F::Req(t) => v == Some(t),
+            F::Opt(t) => v.is_none() || v == Some(t),
+            F::Absent => match idx {
+                // a finite key set makes its keys required (Record<"a" | "c", T>), `string` makes every key optional
+                Some(t) if fin && (k == 0 || k == 2) => v == Some(t),
+                Some(t) if !fin => v.is_none() || v == Some(t),
+                _ => if exact { v.is_none() } else { true },
+            },
+        }
+    };
+    let is_val = |o: &O, v: &[Option<SubTypeTag>; 3], exact: bool| -> bool {
+        field_ok(o.a, v[0], o.idx, o.fin, 0, exact) && field_ok(o.b, v[1], o.idx, o.fin, 1, exact) && field_ok(F::Absent, v[2], o.idx, o.fin, 2, exact)
+    };
+    let mk = |ctx: &mut SemTypeContext, o: &O| -> Option<Rc<SemType>> {
+        let mut vs = BTreeMap::new();
+        for (k, f) in [("a", o.a), ("b", o.b)] {
+            match f {
+                F::Absent => {}
+                F::Req(t) => { vs.insert(k.to_string(), Rc::new(SemType::new_basic(t.code()))); }
+                F::Opt(t) => { vs.insert(k.to_string(), SemTypeContext::make_optional(Rc::new(SemType::new_basic(t.code()))).ok()?); }
+            }
+        }
+        let key = if o.fin {
+            Rc::new(SemType::new_complex(0, vec![Rc::new(ProperSubtype::String { allowed: true, values: vec![strc("a"), strc("c")] })]))
+        } else {
+            Rc::new(SemTypeContext::string())
+        };
+        let idx = o.idx.map(|t| beff_core::subtyping::bdd::IndexedPropertiesAtomic { key: key.clone(), value: Rc::new(SemType::new_basic(t.code())) });
+        Some(Rc::new(ctx.mapping_definition(vs, idx)))
+    };
+    // TypeScript only accepts an index signature when every declared property is compatible with it
+    let valid = |o: &O| -> bool {
+        match o.idx {
+            None => true,
+            Some(t) => [o.a, o.b].iter().all(|f| match f { F::Absent => true, F::Req(x) | F::Opt(x) => *x == t }),
+        }
+    };
+    let objs: Vec<O> = objs.into_iter().filter(|o| valid(o)).collect();
+    // thin the product: all A, and (B, C) pairs from a stride
+    let mut pairs: Vec<(usize, usize)> = vec![];
+    for i in 0..objs.len() { for j in (i..objs.len()).step_by(2) { pairs.push((i, j)); } }
+    for a in &objs {
+        for (bi, ci) in &pairs {
+            if !rep.want() { continue; }
+            let (b, c) = (&objs[*bi], &objs[*ci]);
+            let spec = values.iter().all(|v| !is_val(a, v, true) || is_val(b, v, false) || is_val(c, v, false));
+            let mut ctx = SemTypeContext::new();
+            let (Some(ta), Some(tb), Some(tc)) = (mk(&mut ctx, a), mk(&mut ctx, b), mk(&mut ctx, c)) else { continue };
+            let u = match tb.union(&tc) { Ok(u) => u, Err(_) => continue };
+            match ta.is_subtype(&u, &mut ctx) {
+                Ok(r) => if r != spec {
+                    rep.fail(format!("object types (a, b, index signature over string): {:?} <: {:?} | {:?}", a, b, c), format!("is_subtype = {}", r), format!("{} (brute force over the 27 objects with keys a, b, c)", spec));
+                },
+                Err(_e) => {}   // "not supported" answers are diagnostics, not wrong answers
+            }
+        }
+    }
+    rep.print();
+}
+
 fn main() {
     let args: Vec<String> = std::env::args().collect();
     let fam = args.get(1).map(|s| s.as_str()).unwrap_or("all");
@@ -887,6 +970,7 @@ fn main() {
         "schema" => fam_schema(f, only),
         "listfold" => fam_listfold(f, only),
         "listneg" => fam_listneg(f, only),
+        "mapneg" => fam_mapneg(f, only),
         _ => {
             fam_bdd(f, only);
             fam_dnf(f, only);
